@@ -216,6 +216,39 @@ theorem reverse_twice_restores (pts : List Point) (h : ReversibleShape pts) :
     reversePoints (reversePoints pts) = pts :=
   reversePoints_reversePoints pts h
 
+/-- The full statement about area: reversing any reversible contour that draws without error negates
+the signed area AreaPen computes (so `area` is kept and `clockwise` flips). -/
+def ReverseNegatesArea (pts : List Point) : Prop :=
+  ReversibleShape pts → drawErr pts = none → freshArea (reversePoints pts) = - freshArea pts
+
+/-- Proved part: closed contours (no `move`) with at least one on-curve point and at least two
+points — any mix of lines, cubics and quadratics with implied points, starting anywhere, also on an
+off-curve point.  The reversed contour still draws without error.
+Not proved here (validated against the implementation by the harness only): open contours, and
+closed contours made of off-curve points only. -/
+theorem reverse_negates_area_partial (pts : List Point) (hm : noMove pts = true) (herr : drawErr pts = none)
+    (hon : hasOn pts = true) (h2 : 2 ≤ pts.length) :
+    freshArea (reversePoints pts) = - freshArea pts ∧ drawErr (reversePoints pts) = none :=
+  reverse_area pts hm herr hon h2
+
+/-- Hence reversing flips the direction (`clockwise` = signed area < 0) of every such contour of
+non-zero area, and keeps `area` = |signed area|. -/
+theorem reverse_flips_direction_partial (pts : List Point) (hm : noMove pts = true) (herr : drawErr pts = none)
+    (hon : hasOn pts = true) (h2 : 2 ≤ pts.length) (hne : freshArea pts ≠ 0) :
+    (freshArea (reversePoints pts) < 0 ↔ ¬ freshArea pts < 0) ∧
+    absR (freshArea (reversePoints pts)) = absR (freshArea pts) := by
+  rw [(reverse_area pts hm herr hon h2).1]
+  constructor
+  · constructor
+    · intro h h'; linarith
+    · intro h
+      rcases lt_trichotomy (freshArea pts) 0 with h' | h' | h'
+      · exact absurd h' h
+      · exact absurd h' hne
+      · linarith
+  · unfold absR
+    split_ifs <;> linarith
+
 /-- A closed contour keeps its first point first when reversed. -/
 theorem reverse_keeps_first_point (p0 : Point) (rest : List Point) (h : p0.seg ≠ some .move) :
     ((reversePoints (p0 :: rest)).map Point.core).head? = some p0.core :=
@@ -226,6 +259,8 @@ example : ReversibleShape Ex.closed := by decide
 example : ReversibleShape Ex.opened := by decide
 example : reversePoints Ex.closed ≠ Ex.closed := by decide +kernel
 example : reversePoints Ex.opened ≠ Ex.opened := by decide +kernel
+example : hasOn Ex.closed = true ∧ noMove Ex.closed = true ∧ freshArea Ex.closed ≠ 0 := by decide +kernel
+example : freshArea (reversePoints Ex.closed) = -184555 / 12 := by decide +kernel
 
 /-! ## 5. Changing the start point -/
 
